@@ -387,7 +387,7 @@ def validate_evidence(ev: dict) -> None:
     cov = ev["coverage"]
     assert ev["tier"] in ("quick", "thorough")
     assert isinstance(ev["seed"], int)
-    if ev["level"] == "proof":
+    if ev["level"] == "proof" and "discharged" in cov:
         assert cov["obligations"] >= 1 and cov["discharged"] >= 1
         assert cov["checker_cmd"].strip()
         assert isinstance(cov["trusted_base"], list)
